@@ -600,7 +600,8 @@ class tcp (packet_base):
       # Sanity checking
       if i + 2 > dlen:
         raise RuntimeError("Very truncated TCP option")
-      if i + arr[i+1] > dlen:
+      if i + arr[i+1] > min(dlen, self.hdr_len):
+        # (An option must end within the header, not just within the segment)
         raise RuntimeError("Truncated TCP option")
       if arr[i+1] < 2:
         raise RuntimeError("Illegal TCP option length")
